@@ -527,6 +527,27 @@ where
     });
 }
 
+/// Dense grid of positive ratios for sweeping a continuous parameter (or the quotient of two):
+/// `per_octave` geometric steps per factor of two over [2^-octaves, 2^octaves] - irrational, so
+/// never a "round" value - plus a cluster around 1 (1 +- 2^-k for k = 3..=20). A defect confined to
+/// a band of a parameter (a threshold-selected formula, a deadband, a jitter tolerance) is hit if
+/// the band is wider than one grid step (2^(1/per_octave)) or lies within 12 % of ratio 1.
+pub fn ratio_grid(per_octave: u32, octaves: i32) -> Vec<f64> {
+    let mut v = Vec::new();
+    let n = per_octave as i32 * octaves;
+    for i in -n..=n {
+        v.push((i as f64 / per_octave as f64).exp2());
+    }
+    for k in 3..=20 {
+        let d = (-(k as f64)).exp2();
+        v.push(1.0 + d);
+        v.push(1.0 - d);
+    }
+    v.sort_by(|a, b| a.partial_cmp(b).unwrap());
+    v.dedup();
+    v
+}
+
 /// Timestamps spread over the whole i64 range: neighbours here are further apart than i64::MAX,
 /// so a comparison done through a (wrapping or saturating) difference instead of `<` goes wrong.
 pub const SPREAD: [i64; 8] = [i64::MIN, i64::MIN + 1, -5_000_000_000_000_000_000, -1, 0, 5_000_000_000_000_000_000, i64::MAX - 1, i64::MAX];
